@@ -26,6 +26,7 @@ type Case struct {
 	Args     []string          `json:"args,omitempty"`
 	Vars     []string          `json:"vars,omitempty"`
 	Shell    bool              `json:"shell,omitempty"` // commands allowed (vsh)
+	Fuel     int               `json:"fuel,omitempty"`  // reference evaluator's budget (0 = its default)
 }
 
 // Outcome is the comparable result of one run.
@@ -109,7 +110,7 @@ func Ref(prog *parser.Program, cs *Case, bumpNR bool) (out Outcome, ok bool, use
 	for n, c := range cs.Files {
 		files[n] = []byte(c)
 	}
-	cfg := &refeval.Config{Stdin: []byte(cs.Stdin), Args: cs.Args, Vars: cs.Vars, Argv0: "awk", Files: files, PipeGetlineBumpsNR: bumpNR}
+	cfg := &refeval.Config{Stdin: []byte(cs.Stdin), Args: cs.Args, Vars: cs.Vars, Argv0: "awk", Files: files, PipeGetlineBumpsNR: bumpNR, Fuel: cs.Fuel}
 	if cs.Shell {
 		cfg.Shell = refeval.VshModel
 	}
